@@ -152,6 +152,9 @@ class Terms(object):
         self._solve()
         self._cache = {}
         self._busy = set()
+        a_ = fn.args
+        self._params_ = set(x.arg for x in a_.posonlyargs + a_.args +
+                            a_.kwonlyargs)
         self._nested = {}
         for sub in ast.walk(fn):
             if isinstance(sub, ast.FunctionDef) and sub is not fn:
@@ -923,6 +926,20 @@ class Terms(object):
                 return ot._var(c, onode, {})
             return ("global", c)
         ids = sorted(rd[c])
+        if "." in c and c.split(".")[0] in self._params_:
+            # an attribute of an argument stored on some paths only: on the
+            # others it still has the value it had when the function was
+            # entered
+            nodes = [self.binds[i].node for i in ids]
+            covered = (after and node in nodes) or self.cfg.must_pass(
+                self.cfg.entry, lambda n: n in nodes, targets=[node])
+            if not covered:
+                base, attr = c.rsplit(".", 1)
+                init = ("attrv", self._var(base, node, env, after), attr,
+                        ("entry",))
+                rest = self._bind_term(self.binds[ids[0]]) \
+                    if len(ids) == 1 else ("mu", Mu(self, ids, c))
+                return _phi((init, rest))
         if len(ids) == 1:
             return self._bind_term(self.binds[ids[0]])
         return ("mu", Mu(self, ids, c))
